@@ -54,7 +54,20 @@ pub fn near_size(rng: &mut Rng, sw: u32, sh: u32) -> (u32, u32, CropSpec) {
             _ => d as f64 + 1e-9,
         };
         let room = (s as f64 - size).max(0.0);
-        let origin = if rng.chance(1, 2) { (room * rng.f64_unit()).floor() } else { room * rng.f64_unit() };
+        let origin = match rng.below(3) {
+            0 => (room * rng.f64_unit()).floor(),
+            1 => room * rng.f64_unit(),
+            _ => {
+                // a hair beside a whole number (the "is the origin whole?" decision of the same-size copy shortcut)
+                let n = (room * rng.f64_unit()).floor();
+                let e = *rng.pick(&[1e-7, 3e-7, 9e-7, 1e-9, 1e-12]);
+                if n >= 1.0 && rng.chance(2, 3) {
+                    n - e
+                } else {
+                    (n + e).min(room)
+                }
+            }
+        };
         let size = size.min(s as f64 - origin);
         (d, origin, size)
     };
